@@ -1172,6 +1172,20 @@ func (i *recursivePropIter) next() (propIterItem, iterNextFunc) {
 		name := item.name.string()
 		if _, exists := i.seen[name]; !exists {
 			i.seen[name] = struct{}{}
+			if item.value == nil && item.enumerable == _ENUM_UNKNOWN {
+				// The iterator of the current holder (a Proxy, for instance) carries no property value. The consumer
+				// (enumerableIter) only knows the object the enumeration started from, so resolve the enumerability
+				// here, against the object in the prototype chain that actually owns the key.
+				prop := i.o.getOwnPropStr(name)
+				if prop == nil {
+					continue
+				}
+				if vp, ok := prop.(*valueProperty); ok && !vp.enumerable {
+					item.enumerable = _ENUM_FALSE
+				} else {
+					item.enumerable = _ENUM_TRUE
+				}
+			}
 			return item, i.next
 		}
 	}
